@@ -165,6 +165,11 @@ type concCheck struct {
 	rule      string
 	// minOutcomes: a scenario with fewer distinct outcomes never made threads collide
 	minOutcomes int
+	// sequential (optional): a bounded-exhaustive SEQUENTIAL part of the check, run before
+	// the K2 exploration (it is the cheaper, simpler space). It reports violations /
+	// engine errors on r itself and returns what it covered (stored in the evidence under
+	// "sequential") and whether it enumerated its whole space.
+	sequential func(r *ev.Run) (cov map[string]any, complete bool)
 }
 
 func registerConc(cc concCheck, register func(string, reg.Check)) {
@@ -177,9 +182,14 @@ func registerConc(cc concCheck, register func(string, reg.Check)) {
 			return r.Finish(nil, []string{pgsimAssumption})
 		}
 		bound := ev.Pick(r, cc.boundQ, cc.boundT)
+		var seqCov map[string]any
+		seqComplete := true
+		if cc.sequential != nil {
+			seqCov, seqComplete = cc.sequential(r)
+		}
 		var all []*sched.Stats
 		var schedules, points int64
-		complete := true
+		complete := seqComplete
 		colliding := 0
 		var single []string
 		samples := []any{}
@@ -226,6 +236,9 @@ func registerConc(cc concCheck, register func(string, reg.Check)) {
 			"scenarios":                     all,
 			"single_outcome_scenarios":      single,
 			"rule":                          cc.rule + " — 'states' counts scheduling decision points visited (stateless search: every schedule is executed from the initial state on the real code)",
+		}
+		if seqCov != nil {
+			cov["sequential"] = seqCov
 		}
 		return r.Finish(cov, []string{pgsimAssumption, "scheduling points = every database/sql driver call (begin, statement, commit, rollback) and every lock wait inside pgsim; Go code between two driver calls runs atomically (no shared mutable Go state is held across driver calls in the ledger)"})
 	})
